@@ -9,6 +9,23 @@ demands sample-by-sample agreement.  Every returned state is checked against the
 clauses on the implementation (heralds removed, post-selection, min_detection, exactly N outputs,
 seed determinism), and empirical frequencies are tested against the model's exact
 detected/heralded/post-selected distribution (chi-square, false-alarm bound 1e-9 per test).
+
+Streams (in this order):
+  1. boundary seeds  — a directed corpus: every seed of SEED_POOL (0, 0.0, 1, 1.0, 2^31±, 2^32±, 2^63,
+     > 2^64, numpy integer and float scalars) on configurations that cover every consumer of randomness
+     (numpy `choice`, detector efficiency, dark counts, threshold only, none), for every sampling method of
+     the Sampler and the QuickSampler; each call is made twice with the GLOBAL generators (stdlib, numpy
+     legacy) put into two different states before the two calls, and replayed on the model.
+  2. histories       — ONE long-lived Sampler / QuickSampler is sampled (every method), reconfigured through
+     its setters or through the objects it holds (circuit object with other herald modes / photon numbers /
+     other values in the same shape, herald added in place, input state, detector object or attributes,
+     source, backend, post-selection, min_detection, photon_counting), read through any method, and sampled
+     again.  Every returned state must satisfy the CURRENT configuration's clauses; for a fixed seed the
+     result must be the one a FRESH object in the current configuration returns, and the one the model
+     replays from the fresh object's distribution.  A directed corpus of histories runs first.
+  3. generated single-object cases (tape replay + clauses; seeds drawn from the boundary pool as well),
+     the post-selection-object reuse probes, and the chi-square tests (single objects and the long-lived
+     objects at the end of a history).
 """
 
 from __future__ import annotations
@@ -22,7 +39,7 @@ import numpy as np
 import circgen as cg
 import fockgen as fg
 import lightworks as lw
-from core import Ctx, exc_class, frac_str
+from core import PYTH, Ctx, ddmin, exc_class, frac_str
 from lightworks import emulator
 from props.c05 import gen_rules, make_ps, rule_ok
 
@@ -32,7 +49,11 @@ TRUSTED = [
     "random.seed/random() — contract self-tested at the start of every run",
     "convergence 'in the limit' is the law of large numbers applied to the exact kernel; not formalised",
 ]
-ASSUMPTIONS = ["<= 4 user modes, <= 4 photons; N <= 400 per tape replay; 6000 samples per statistical test"]
+ASSUMPTIONS = ["<= 5 circuit modes, <= 4 photons; N <= 400 per tape replay; 6000 samples per statistical test"]
+
+F13_SIG = {"method": "Sampler.sample", "circuit_has_heralds": True}
+NPINT_SIG = {"method": "sample_N_inputs", "seed_type": "numpy-integer"}
+QPS_SIG = {"object": "QuickSampler", "postselection_mutated_in_place": True}
 
 
 def fr(x) -> str:
@@ -41,7 +62,7 @@ def fr(x) -> str:
 
 def contract_selftest(ctx: Ctx) -> None:
     p = np.array([0.2, 0.5, 0.3])
-    for seed in (0, 5, 99):
+    for seed in (0, 5, 99, 2**32, 2**64 + 3):
         a = np.random.default_rng(seed).choice(np.arange(3), p=p, size=50)
         u = np.random.default_rng(seed).random(50)
         cdf = np.cumsum(p)
@@ -49,7 +70,63 @@ def contract_selftest(ctx: Ctx) -> None:
         b = np.searchsorted(cdf, u, side="right")
         if not (a == b).all():
             raise RuntimeError("numpy Generator.choice contract does not hold; tape replay is impossible")
+    # stdlib: a float seed with an integer value seeds like that integer (hash of the float)
+    st = pyrandom.getstate()
+    for a, b in ((0, 0.0), (1, 1.0), (4, 4.0)):
+        pyrandom.seed(a)
+        x = pyrandom.random()
+        pyrandom.seed(b)
+        if pyrandom.random() != x:
+            raise RuntimeError("stdlib random.seed(float) contract does not hold")
+    pyrandom.setstate(st)
     ctx.count("numpy_choice_contract_selftest_ok")
+
+
+# --------------------------------------------------------------------------- seeds
+
+# [type, value]; a plain int in a (legacy) replay file is ["int", value]
+SEED_POOL = [["int", 0], ["float", 0.0], ["int", 1], ["float", 1.0], ["int", 2**31 - 1], ["int", 2**31],
+             ["int", 2**32 - 1], ["int", 2**32], ["int", 2**63], ["int", 2**64 + 3],
+             ["np.float64", 0.0], ["np.float64", 4.0],
+             ["np.int64", 0], ["np.int64", 7], ["np.int32", 0], ["np.uint8", 1], ["np.int64", 2**40]]
+
+
+def seed_parts(spec):
+    """(object handed to the API, its integer value, is-a-numpy-integer)"""
+    if isinstance(spec, int):
+        return spec, spec, False
+    t, v = spec
+    if t == "int":
+        return int(v), int(v), False
+    if t == "float":
+        return float(v), int(v), False
+    obj = getattr(np, t[3:])(v)
+    return obj, int(v), t != "np.float64"
+
+
+def tape_seed(spec):
+    """what the stdlib generator is seeded with for this seed: the value itself (int / float: a float seeds
+    through its hash, i.e. like the integer it equals); a numpy integer is converted by process_random_seed"""
+    obj, iseed, npint = seed_parts(spec)
+    return iseed if npint else obj
+
+
+def seed_tag(spec) -> str:
+    if isinstance(spec, int):
+        return "random_int"
+    t, v = spec
+    return f"{t}:{v if abs(v) < 10 else 'large'}"
+
+
+def disturb(k: int) -> None:
+    """put the GLOBAL generators (stdlib and numpy legacy) in a state that depends on k only: a seeded
+    call must not care, a call that silently falls back to a global generator shows up deterministically"""
+    pyrandom.seed(f"c07-disturb-{k}")
+    np.random.seed(1000 + k)  # noqa: NPY002
+
+
+def gen_seed(rng):
+    return rng.choice(SEED_POOL) if rng.random() < 0.35 else rng.randrange(10**6)
 
 
 def gen_case(ctx: Ctx, rng):
@@ -66,14 +143,15 @@ def gen_case(ctx: Ctx, rng):
     det = {"eta": rng.choice([1, 1, 0.9, 0.5, 0.75]), "pdark": rng.choice([0, 0, 0, 0.05, 0.25]),
            "pnr": rng.random() < 0.6}
     return {"prog": prog, "input": fg.rand_state(rng, im, nph), "det": det, "rules": gen_rules(rng, im, nph),
-            "min": rng.choice([0, 0, 1, nph]), "seed": rng.randrange(10**6), "N": rng.choice([50, 200, 400])}
+            "min": rng.choice([0, 0, 1, nph]), "seed": gen_seed(rng), "N": rng.choice([50, 200, 400]),
+            "psform": rng.choice(["object", "object", "function"])}
 
 
 def det_json(det):
     return {"eta": fr(det["eta"]), "pdark": fr(det["pdark"]), "pnr": det["pnr"]}
 
 
-def py_tape(seed: int, n: int) -> list[str]:
+def py_tape(seed, n: int) -> list[str]:
     st = pyrandom.getstate()
     pyrandom.seed(seed)
     out = [fr(pyrandom.random()) for _ in range(n)]
@@ -81,17 +159,118 @@ def py_tape(seed: int, n: int) -> list[str]:
     return out
 
 
+def mk_post(form: str, rules):
+    """the post-selection handed to the API: None, a PostSelection object, or a plain function"""
+    if form == "object_always":
+        ps = lw.PostSelection()
+        for ms, cnt in rules:
+            ps.add(tuple(ms), tuple(cnt))
+        return ps
+    if not rules:
+        return None
+    if form == "function":
+        r = json.loads(json.dumps(rules))
+        return lambda s: rule_ok(r, s)
+    return make_ps(rules)
+
+
+def counts_of(res) -> dict:
+    return {tuple(s.s): n for s, n in res.items()}
+
+
+def tally(states) -> dict:
+    out: dict = {}
+    for s in states:
+        out[tuple(s)] = out.get(tuple(s), 0) + 1
+    return out
+
+
+def clause_problem(states, what, im, rules, mind, pnr):
+    """the property's clauses on returned states (rules / mind None: not applicable to the method)"""
+    for s in states:
+        s = list(s)
+        if len(s) != im:
+            return f"oracle: {what} returned {s}, heralded modes are not removed (expected {im} modes)"
+        if rules is not None and not rule_ok(rules, s):
+            return f"oracle: {what} returned {s}, which fails the post-selection {rules}"
+        if mind is not None and sum(s) < mind:
+            return f"oracle: {what} returned {s} with fewer than min_detection={mind} photons"
+        if not pnr and s and max(s) > 1:
+            return f"oracle: {what} returned {s} although threshold detectors (no photon counting) are configured"
+    return None
+
+
+def quick_case(ctx: Ctx, c, case: dict) -> list[str]:
+    """QuickSampler on the case's circuit / input / rules / photon counting: sample_N_outputs and sample()
+    twice under the seed (global generators disturbed in between), clauses, tape replay on the model"""
+    probs: list[str] = []
+    rules, N = case["rules"], min(case["N"], 200)
+    pnr = case["det"]["pnr"]
+    im = c.input_modes
+    seed_obj, iseed, _npint = seed_parts(case["seed"])
+    try:
+        qs = emulator.QuickSampler(c, lw.State(case["input"]), photon_counting=pnr,
+                                   post_select=mk_post(case.get("psform", "object"), rules))
+        pd = qs.probability_distribution
+    except Exception:  # noqa: BLE001  (post-selection / threshold detection leaves no output: documented error)
+        ctx.count("quick:no_valid_output")
+        return probs
+    cond = [[k.s, fr(float(v))] for k, v in pd.items()]
+    try:
+        disturb(1)
+        r1 = counts_of(qs.sample_N_outputs(N, seed=seed_obj))
+        disturb(2)
+        r2 = counts_of(qs.sample_N_outputs(N, seed=seed_obj))
+    except Exception as e:  # noqa: BLE001
+        return [f"oracle: QuickSampler.sample_N_outputs(seed={seed_obj!r}) raised {exc_class(e)}: {str(e)[:80]}"]
+    ctx.count("quick:sample_N_outputs")
+    if r1 != r2:
+        probs.append(f"oracle: QuickSampler.sample_N_outputs with the same seed ({seed_obj!r}) gave different results")
+    if sum(r1.values()) != N:
+        probs.append(f"oracle: QuickSampler.sample_N_outputs returned {sum(r1.values())} samples instead of exactly {N}")
+    bad = clause_problem(r1, "QuickSampler.sample_N_outputs", im, rules, None, pnr)
+    if bad:
+        probs.append(bad)
+    if not probs:
+        us = [fr(u) for u in np.random.default_rng(iseed).random(N)]
+        mc = tally(ctx.model.call({"op": "samp", "what": "n_outputs", "cond": cond, "us": us}))
+        if mc != r1:
+            probs.append(f"corr: QuickSampler.sample_N_outputs(N={N}, seed={seed_obj!r}) counts differ from the tape "
+                         f"replay on the model")
+    if not probs:
+        disturb(1)
+        pyrandom.seed(iseed)
+        s1 = [qs.sample().s for _ in range(3)]
+        disturb(2)
+        pyrandom.seed(iseed)
+        s2 = [qs.sample().s for _ in range(3)]
+        ctx.count("quick:sample")
+        if s1 != s2:
+            probs.append("oracle: QuickSampler.sample under the same seed gave different results")
+        bad = clause_problem(s1, "QuickSampler.sample", im, rules, None, pnr)
+        if bad:
+            probs.append(bad)
+        tape = py_tape(iseed, 3)
+        ms = [ctx.model.call({"op": "samp", "what": "one", "dist": cond, "u": u}) for u in tape]
+        if ms != s1 and not probs:
+            probs.append(f"corr: QuickSampler.sample (seed {iseed}) returned {s1}, tape replay gives {ms}")
+    return probs
+
+
 def run_case(ctx: Ctx, case: dict) -> list[str]:
     probs: list[str] = []
+    known: list[str] = []
     pool = fg.build_impl(case["prog"])
     c = pool.get("c1")
     if c is None or c.input_modes != len(case["input"]):
         return probs
-    det, rules, mind, seed, N = case["det"], case["rules"], case["min"], case["seed"], case["N"]
+    det, rules, mind, N = case["det"], case["rules"], case["min"], case["N"]
+    seed, iseed, npint = seed_parts(case["seed"])
+    form = case.get("psform", "object")
     hout = c.heralds["output"]
     if hout and max(hout.values()) > 1 and not det["pnr"]:
         return probs  # documented SamplerError
-    ps = make_ps(rules)
+    ps = mk_post(form, rules)
     smp = emulator.Sampler(c, lw.State(case["input"]),
                            detector=emulator.Detector(efficiency=det["eta"], p_dark=det["pdark"],
                                                       photon_counting=det["pnr"]))
@@ -100,49 +279,52 @@ def run_case(ctx: Ctx, case: dict) -> list[str]:
     outher = [[m, n] for m, n in hout.items()]
 
     def clauses(states, what):
-        for s in states:
-            if len(s) != c.input_modes:
-                return f"oracle: {what} returned {s}, heralded modes are not removed (expected {c.input_modes} modes)"
-            if not rule_ok(rules, s):
-                return f"oracle: {what} returned {s}, which fails the post-selection {rules}"
-            if sum(s) < mind:
-                return f"oracle: {what} returned {s} with fewer than min_detection={mind} photons"
-        return None
+        return clause_problem(states, what, c.input_modes, rules, mind, det["pnr"])
 
     # ---- sample_N_inputs
+    c1 = None
     try:
+        disturb(1)
         r1 = smp.sample_N_inputs(N, post_select=ps, min_detection=mind, seed=seed)
+        disturb(2)
         r1b = smp.sample_N_inputs(N, post_select=ps, min_detection=mind, seed=seed)
+        c1 = counts_of(r1)
     except Exception as e:  # noqa: BLE001
-        return [f"oracle: sample_N_inputs raised {exc_class(e)}: {str(e)[:80]}"]
-    c1 = {tuple(s.s): n for s, n in r1.items()}
-    if c1 != {tuple(s.s): n for s, n in r1b.items()}:
-        probs.append("oracle: sample_N_inputs with the same seed gave different results")
-    bad = clauses([list(k) for k in c1], "sample_N_inputs")
-    if bad:
-        probs.append(bad)
-    if sum(c1.values()) > N:
-        probs.append("oracle: sample_N_inputs returned more samples than inputs")
-    us = [fr(u) for u in np.random.default_rng(seed).random(N)]
-    ntape = N * (sum(case["input"]) + sum(hout.values()) + 2 * len(pd and next(iter(pd)).s) + 4)
-    m1 = ctx.model.call({"op": "samp", "what": "n_inputs", "dist": dist, "det": det_json(det), "outher": outher,
-                         "rules": rules, "min": mind, "us": us, "tape": py_tape(seed, ntape)})
-    mc: dict = {}
-    for s in m1:
-        mc[tuple(s)] = mc.get(tuple(s), 0) + 1
-    if mc != c1 and not probs:
-        probs.append(f"corr: sample_N_inputs(N={N}, seed={seed}) counts differ from the tape replay on the model: "
-                     f"impl={sorted(c1.items())[:6]} model={sorted(mc.items())[:6]}")
+        if npint and isinstance(e, TypeError):
+            # sample_N_outputs / QuickSampler accept and convert the same seed (process_random_seed)
+            known.append(f"oracle: sample_N_inputs(seed={seed!r}) raises TypeError for a numpy integer seed, which "
+                         f"process_random_seed accepts and the N-outputs methods reproduce: {str(e)[:60]!r}")
+        else:
+            return [f"oracle: sample_N_inputs raised {exc_class(e)}: {str(e)[:80]}"]
+    us = [fr(u) for u in np.random.default_rng(iseed).random(N)]
+    if c1 is not None:
+        if c1 != counts_of(r1b):
+            probs.append(f"oracle: sample_N_inputs with the same seed ({seed!r}) gave different results")
+        bad = clauses([list(k) for k in c1], "sample_N_inputs")
+        if bad:
+            probs.append(bad)
+        if sum(c1.values()) > N:
+            probs.append("oracle: sample_N_inputs returned more samples than inputs")
+        ntape = N * (sum(case["input"]) + sum(hout.values()) + 2 * len(pd and next(iter(pd)).s) + 4)
+        m1 = ctx.model.call({"op": "samp", "what": "n_inputs", "dist": dist, "det": det_json(det), "outher": outher,
+                             "rules": rules, "min": mind, "us": us, "tape": py_tape(tape_seed(case["seed"]), ntape)})
+        mc = tally(m1)
+        if mc != c1 and not probs:
+            probs.append(f"corr: sample_N_inputs(N={N}, seed={seed!r}) counts differ from the tape replay on the model: "
+                         f"impl={sorted(c1.items())[:6]} model={sorted(mc.items())[:6]}")
     # ---- sample_N_outputs (documented: no dark counts)
     if det["pdark"] == 0 and not probs:
         cond = ctx.model.call({"op": "samp", "what": "outputs_dist", "dist": dist, "pnr": det["pnr"], "outher": outher,
                                "rules": rules, "min": mind})
         try:
+            disturb(1)
             r2 = smp.sample_N_outputs(N, post_select=ps, min_detection=mind, seed=seed)
-            c2 = {tuple(s.s): n for s, n in r2.items()}
+            c2 = counts_of(r2)
+            disturb(2)
+            c2b = counts_of(smp.sample_N_outputs(N, post_select=ps, min_detection=mind, seed=seed))
             err = None
         except Exception as e:  # noqa: BLE001
-            c2, err = None, exc_class(e)
+            c2, c2b, err = None, None, exc_class(e)
         if c2 is None:
             if cond:
                 probs.append(f"oracle: sample_N_outputs raised {err} although accepted outputs exist")
@@ -150,35 +332,806 @@ def run_case(ctx: Ctx, case: dict) -> list[str]:
             if not cond:
                 probs.append("corr: sample_N_outputs succeeded although the model finds no accepted output")
             else:
+                if c2 != c2b:
+                    probs.append(f"oracle: sample_N_outputs with the same seed ({seed!r}) gave different results")
                 if sum(c2.values()) != N:
                     probs.append(f"oracle: sample_N_outputs returned {sum(c2.values())} samples instead of exactly {N}")
                 bad = clauses([list(k) for k in c2], "sample_N_outputs")
                 if bad:
                     probs.append(bad)
                 m2 = ctx.model.call({"op": "samp", "what": "n_outputs", "cond": cond, "us": us})
-                mc2: dict = {}
-                for s in m2:
-                    mc2[tuple(s)] = mc2.get(tuple(s), 0) + 1
+                mc2 = tally(m2)
                 if mc2 != c2 and not probs:
-                    probs.append(f"corr: sample_N_outputs(N={N}, seed={seed}) counts differ from the tape replay on the model")
+                    probs.append(f"corr: sample_N_outputs(N={N}, seed={seed!r}) counts differ from the tape replay on the model")
     # ---- single-shot sample()
     if not probs:
-        pyrandom.seed(seed)
+        disturb(1)
+        pyrandom.seed(iseed)
         try:
             s1 = smp.sample().s
+            disturb(2)
+            pyrandom.seed(iseed)
+            s1b = smp.sample().s
         except Exception as e:  # noqa: BLE001
             return [f"oracle: Sampler.sample raised {exc_class(e)}"]
-        tape = py_tape(seed, 64)
+        if s1 != s1b:
+            probs.append("oracle: Sampler.sample under the same seed gave different results")
+        tape = py_tape(iseed, 64)
         m = ctx.model.call({"op": "samp", "what": "one", "dist": dist, "u": tape[0]})
         md = ctx.model.call({"op": "samp", "what": "det", "det": det_json(det), "state": m, "tape": tape[1:]})
         if md["state"] != s1:
-            probs.append(f"corr: Sampler.sample (seed {seed}) returned {s1}, tape replay gives {md['state']}")
+            probs.append(f"corr: Sampler.sample (seed {iseed}) returned {s1}, tape replay gives {md['state']}")
         if hout:
             full_ok = all(s1[m_] == n for m_, n in hout.items()) if len(s1) == c.n_modes else True
             if len(s1) != c.input_modes or not full_ok:
                 probs.append(f"oracle: Sampler.sample returned {s1} on a heralded circuit: heralded modes are not "
                              f"removed / heralds not checked")
-    return probs
+    # ---- the quick sampler on the same circuit / input / rules / photon-counting setting
+    if not probs or all("Sampler.sample returned" in p for p in probs):
+        probs += quick_case(ctx, c, case)
+    return probs + known
+
+
+def report_case(ctx: Ctx, case: dict, probs: list[str]) -> None:
+    """first problem of a case -> violation / disagreement; F13 (known finding) and the numpy-integer seed
+    finding are reported under their own signatures and do not hide what follows"""
+    first = True
+    for p in probs:
+        if "numpy integer seed" in p:
+            if not ctx.extra.get("_npint_reported"):
+                ctx.extra["_npint_reported"] = True
+                ctx.violation(p, {"case": case, "problems": probs}, sig=dict(NPINT_SIG))
+            continue
+        if p.startswith("oracle") and "Sampler.sample returned" in p and "heralded circuit" in p:
+            ctx.violation(p, {"case": case, "problems": probs}, sig=dict(F13_SIG))
+            continue
+        if not first:
+            continue
+        first = False
+        if p.startswith("oracle"):
+            ctx.violation(p, {"case": case, "problems": probs}, sig={"kind": p[8:40]})
+        else:
+            ctx.disagreement(p, {"case": case, "problems": probs})
+
+
+def seed_corpus(ctx: Ctx, rng) -> None:
+    """every boundary seed on configurations that cover every consumer of randomness"""
+    wanted = [("choice_only", lambda d: d["eta"] == 1 and d["pdark"] == 0 and d["pnr"]),
+              ("efficiency", lambda d: d["eta"] < 1 and d["pdark"] == 0),
+              ("dark_counts", lambda d: d["eta"] == 1 and d["pdark"] > 0),
+              ("efficiency+dark_counts+threshold", lambda d: d["eta"] < 1 and d["pdark"] > 0 and not d["pnr"])]
+    if not ctx.thorough:
+        wanted = [wanted[1], wanted[2], wanted[0]]
+    for name, pred in wanted:
+        case = None
+        for _ in range(400):
+            cand = gen_case(ctx, rng)
+            if cand is None or not pred(cand["det"]) or sum(cand["input"]) == 0:
+                continue
+            case = cand
+            break
+        if case is None:
+            continue
+        case["N"] = 50
+        pool = SEED_POOL if name != "choice_only" or ctx.thorough else [s for s in SEED_POOL if s[1] in (0, 0.0, 7)]
+        for spec in pool:
+            if ctx.out_of_time():
+                return
+            k = dict(case, seed=spec)
+            probs = run_case(ctx, k)
+            ctx.count(f"seed:{seed_tag(spec)}")
+            ctx.count(f"seed_consumer:{name}")
+            ctx.case(json.dumps(k), True)
+            report_case(ctx, k, probs)
+
+
+# --------------------------------------------------------------------------- histories on one long-lived object
+#
+# history = {"kind": "sampler" | "quick", "bases": [prog, ...]  (programs of herald-free circuits "c1", all with
+#            the same number of modes), "init": configuration, "steps": [step, ...]}
+# configuration = {"circ": {"base": i, "heralds": [[photons, in_mode, out_mode], ...], "param": r | None}, "input": [...],
+#                  "rules": [...], "psform": "object" | "object_always" (a PostSelection even without rules) | "function",
+#                  sampler: "det": {eta, pdark, pnr}, "src": [brightness, purity, indistinguishability] | None,
+#                           "backend": "permanent" | "slos", "min": k        quick: "pnr": bool}
+# step = {"set": [op, ...], "reads": [method, ...], "obs": [method, ...], "seed": spec, "N": n}
+#   set ops  ["circuit", circ]            a NEW circuit object is assigned (the input is cut / padded to fit)
+#            ["herald_inplace", [p,i,o]]  herald() on the circuit object the sampler holds (+ shorter input)
+#            ["param", r]                 the live Parameter inside the held circuit is set (circ["param"] not None)
+#            ["input", state]  ["rules", rules, form]  ["ps_add", rule] (in place on the PostSelection object in use:
+#            the one the QuickSampler holds / the one handed to every sampling call of the Sampler)
+#            ["min", k]  ["detector", det]  ["detector_attr", key, value] (in place)  ["source", src]
+#            ["source_attr", idx, value] (in place)  ["backend", name]  ["pnr", bool]
+#   reads    methods called on the long-lived object only, between the change and the observation ("companion":
+#            the other kind of sampler is built on the same circuit and PostSelection objects and used once)
+#   obs      "n_inputs" | "n_outputs" | "sample": called on the long-lived object AND on a fresh object built from
+#            the current configuration, under the same seed; clauses + equality + tape replay on the model
+# A set op that does not apply is skipped, so every sub-list of steps is a history (shrinking).
+
+READS = {"sampler": ["pd", "cd", "sample", "n_inputs", "n_outputs", "companion"],
+         "quick": ["pd", "cd", "sample", "n_outputs", "companion"]}
+OBS = {"sampler": ["n_inputs", "n_outputs", "sample"], "quick": ["n_outputs", "sample"]}
+K_SINGLE = 8  # single-shot draws per observation
+
+
+def build_circuit(bases: list, circ: dict):
+    """-> (circuit, its Parameter or None): the base program, optionally a final beam splitter on modes 0/1 whose
+    reflectivity is a live Parameter, then the heralds"""
+    c = fg.build_impl(bases[circ["base"]])["c1"]
+    par = None
+    if circ.get("param") is not None:
+        par = lw.Parameter(circ["param"])
+        c.bs(0, 1, reflectivity=par)
+    for p, i, o in circ["heralds"]:
+        c.herald(p, i, o)
+    return c, par
+
+
+def fit_input(inp: list, im: int) -> list:
+    return (list(inp) + [0] * im)[:im]
+
+
+def mk_det(d):
+    return emulator.Detector(efficiency=d["eta"], p_dark=d["pdark"], photon_counting=d["pnr"])
+
+
+def mk_src(s):
+    return None if s is None else emulator.Source(brightness=s[0], purity=s[1], indistinguishability=s[2])
+
+
+SRC_ATTR = ["brightness", "purity", "indistinguishability"]
+DET_ATTR = {"eta": "efficiency", "pdark": "p_dark", "pnr": "photon_counting"}
+
+
+class Live:
+    """the long-lived object together with the configuration it is supposed to be in"""
+
+    def __init__(self, hist: dict) -> None:
+        self.kind = hist["kind"]
+        self.bases = hist["bases"]
+        self.cur = json.loads(json.dumps(hist["init"]))
+        cur = self.cur
+        self.c, self.par = build_circuit(self.bases, cur["circ"])
+        cur["input"] = fit_input(cur["input"], self.c.input_modes)
+        self.trim_rules()
+        self.ps = mk_post(cur["psform"], cur["rules"])
+        if self.kind == "sampler":
+            self.obj = emulator.Sampler(self.c, lw.State(cur["input"]), source=mk_src(cur["src"]),
+                                        detector=mk_det(cur["det"]), backend=cur["backend"])
+        else:
+            self.obj = emulator.QuickSampler(self.c, lw.State(cur["input"]), photon_counting=cur["pnr"],
+                                             post_select=self.ps)
+
+    def trim_rules(self) -> bool:
+        im = self.c.input_modes
+        keep = [r for r in self.cur["rules"] if max(r[0]) < im]
+        changed = keep != self.cur["rules"]
+        self.cur["rules"] = keep
+        return changed
+
+    def set_ps(self) -> None:
+        self.ps = mk_post(self.cur["psform"], self.cur["rules"])
+        if self.kind == "quick":
+            self.obj.post_select = self.ps
+
+    def refit(self) -> None:
+        """after the circuit's input_modes changed: input of the right length, rules on existing modes"""
+        cur = self.cur
+        new = fit_input(cur["input"], self.c.input_modes)
+        if new != cur["input"]:  # the input is only touched when it has to be
+            cur["input"] = new
+            self.obj.input_state = lw.State(new)
+        if self.trim_rules():
+            self.set_ps()
+
+    def apply(self, op: list) -> bool:
+        cur, obj, a = self.cur, self.obj, op[0]
+        sampler = self.kind == "sampler"
+        if a == "circuit":
+            c, par = build_circuit(self.bases, op[1])
+            if c.input_modes < 1:
+                return False
+            obj.circuit = c
+            self.c, self.par = c, par
+            cur["circ"] = json.loads(json.dumps(op[1]))
+            self.refit()
+        elif a == "herald_inplace":
+            p, i, o = op[1]
+            c = self.c
+            if c.input_modes < 2 or i in c.heralds["input"] or o in c.heralds["output"] or max(i, o) >= c.n_modes:
+                return False
+            c.herald(p, i, o)
+            cur["circ"]["heralds"].append([p, i, o])
+            self.refit()
+        elif a == "param":
+            if self.par is None:
+                return False
+            self.par.set(op[1])  # the Parameter inside the circuit object the sampler holds
+            cur["circ"]["param"] = op[1]
+        elif a == "input":
+            cur["input"] = fit_input(op[1], self.c.input_modes)
+            obj.input_state = lw.State(cur["input"])
+        elif a == "rules":
+            cur["rules"], cur["psform"] = json.loads(json.dumps(op[1])), op[2]
+            self.trim_rules()
+            self.set_ps()
+        elif a == "ps_add":
+            used = {m for r in cur["rules"] for m in r[0]}
+            if not isinstance(self.ps, lw.PostSelection) or used & set(op[1][0]) or max(op[1][0]) >= self.c.input_modes:
+                return False
+            self.ps.add(tuple(op[1][0]), tuple(op[1][1]))
+            cur["rules"].append(json.loads(json.dumps(op[1])))
+        elif a == "min" and sampler:
+            cur["min"] = op[1]
+        elif a == "detector" and sampler:
+            cur["det"] = dict(op[1])
+            obj.detector = mk_det(cur["det"])
+        elif a == "detector_attr" and sampler:
+            setattr(obj.detector, DET_ATTR[op[1]], op[2])
+            cur["det"][op[1]] = op[2]
+        elif a == "source" and sampler:
+            cur["src"] = None if op[1] is None else list(op[1])
+            obj.source = mk_src(cur["src"])
+        elif a == "source_attr" and sampler:
+            if cur["src"] is None:
+                cur["src"] = [1, 1, 1]
+            setattr(obj.source, SRC_ATTR[op[1]], op[2])
+            cur["src"][op[1]] = op[2]
+        elif a == "backend" and sampler:
+            cur["backend"] = op[1]
+            obj.backend = op[1]
+        elif a == "pnr" and not sampler:
+            cur["pnr"] = op[1]
+            obj.photon_counting = op[1]
+        else:
+            return False
+        return True
+
+    def read(self, what: str) -> None:
+        obj, cur = self.obj, self.cur
+        try:
+            if what == "pd":
+                obj.probability_distribution  # noqa: B018
+            elif what == "cd":
+                obj.continuous_distribution  # noqa: B018
+            elif what == "sample":
+                obj.sample()
+            elif what == "companion":
+                # another consumer of the SAME circuit and PostSelection objects (the other kind of sampler)
+                if self.kind == "sampler":
+                    q = emulator.QuickSampler(self.c, lw.State(cur["input"]), post_select=self.ps)
+                    q.sample_N_outputs(20, seed=3)
+                else:
+                    s2 = emulator.Sampler(self.c, lw.State(cur["input"]))
+                    s2.sample_N_inputs(20, post_select=self.ps, seed=3)
+                    s2.sample_N_outputs(20, post_select=self.ps, seed=3)
+            elif what == "n_inputs":
+                obj.sample_N_inputs(20, post_select=self.ps, min_detection=cur["min"], seed=3)
+            elif self.kind == "sampler":
+                obj.sample_N_outputs(20, post_select=self.ps, min_detection=cur["min"], seed=3)
+            else:
+                obj.sample_N_outputs(20, seed=3)
+        except Exception:  # noqa: BLE001  (e.g. no accepted output in this configuration)
+            pass
+
+    def fresh(self):
+        """a new object, built from scratch (circuit rebuilt from its program) in the current configuration"""
+        cur = self.cur
+        c, _ = build_circuit(self.bases, cur["circ"])
+        ps = mk_post(cur["psform"], cur["rules"])
+        if self.kind == "sampler":
+            return c, ps, emulator.Sampler(c, lw.State(cur["input"]), source=mk_src(cur["src"]),
+                                           detector=mk_det(cur["det"]), backend=cur["backend"])
+        return c, ps, emulator.QuickSampler(c, lw.State(cur["input"]), photon_counting=cur["pnr"], post_select=ps)
+
+
+def _call(f):
+    try:
+        return "ok", f()
+    except Exception as e:  # noqa: BLE001
+        return "err", exc_class(e)
+
+
+def observe(ctx: Ctx, live: Live, step: dict, idx: int, cnt) -> list[str]:
+    """the observations of one step: long-lived object vs the clauses of the CURRENT configuration, vs a fresh
+    object under the same seed, vs the model's replay of the fresh object's distribution"""
+    cur, kind = live.cur, live.kind
+    sampler = kind == "sampler"
+    seed, iseed, _ = seed_parts(step["seed"])
+    N = step["N"]
+    cref, psf, fresh = live.fresh()
+    im, hout = cref.input_modes, cref.heralds["output"]
+    outher = [[m, n] for m, n in hout.items()]
+    rules = cur["rules"]
+    mind = cur["min"] if sampler else None
+    pnr = cur["det"]["pnr"] if sampler else cur["pnr"]
+    det = cur["det"] if sampler else {"eta": 1, "pdark": 0, "pnr": True}
+    name = "Sampler" if sampler else "QuickSampler"
+    where = f"history step {idx} ({name} after {[o[0] for o in step.get('set', [])] or 'construction'}, reads {step.get('reads', [])})"
+    st, pd = _call(lambda: fresh.probability_distribution)
+    dist = [[k.s, fr(float(v))] for k, v in pd.items()] if st == "ok" else None
+    if st != "ok":
+        cnt("history:configuration_without_distribution")
+    for what in step["obs"]:
+        if what == "n_inputs" and sampler:
+            meth = f"{name}.sample_N_inputs"
+            disturb(1)
+            a = _call(lambda: live.obj.sample_N_inputs(N, post_select=live.ps, min_detection=mind, seed=seed))
+            disturb(2)
+            b = _call(lambda: fresh.sample_N_inputs(N, post_select=psf, min_detection=mind, seed=seed))
+        elif what == "n_outputs":
+            meth = f"{name}.sample_N_outputs"
+            disturb(1)
+            if sampler:
+                a = _call(lambda: live.obj.sample_N_outputs(N, post_select=live.ps, min_detection=mind, seed=seed))
+                disturb(2)
+                b = _call(lambda: fresh.sample_N_outputs(N, post_select=psf, min_detection=mind, seed=seed))
+            else:
+                a = _call(lambda: live.obj.sample_N_outputs(N, seed=seed))
+                disturb(2)
+                b = _call(lambda: fresh.sample_N_outputs(N, seed=seed))
+        elif what == "sample":
+            meth = f"{name}.sample"
+            disturb(1)
+            pyrandom.seed(iseed)
+            a = _call(lambda: [live.obj.sample().s for _ in range(K_SINGLE)])
+            disturb(2)
+            pyrandom.seed(iseed)
+            b = _call(lambda: [fresh.sample().s for _ in range(K_SINGLE)])
+        else:
+            continue
+        cnt(f"history:{kind}:{what}")
+        if a[0] == "err" or b[0] == "err":
+            if a != b:
+                return [f"oracle: {where}: {meth} on the long-lived object gives {a[0]}:{a[1] if a[0] == 'err' else ''} "
+                        f"but a fresh object in the same configuration gives {b[0]}:{b[1] if b[0] == 'err' else ''}"]
+            cnt(f"history:{kind}:{what}:both_raise:{a[1]}" + (":dark_counts" if sampler and det["pdark"] else ""))
+            continue
+        if what == "sample":
+            la, fb = a[1], b[1]
+            if sampler and hout:
+                # F13 (known finding): full-length states, heralds unchecked; compare as they are
+                if any(len(s) != im for s in la) and not ctx.extra.get("_f13_hist"):
+                    ctx.extra["_f13_hist"] = True
+                    ctx.violation(f"oracle: Sampler.sample returned {la[0]} on a heralded circuit: heralded modes are "
+                                  f"not removed / heralds not checked", {"history_step": idx}, sig=dict(F13_SIG))
+            else:
+                bad = clause_problem(la, meth, im, None if sampler else rules, None, pnr)
+                if bad:
+                    return [bad + f" — {where}"]
+            if la != fb:
+                return [f"oracle: {where}: {K_SINGLE} x {meth} under seed {iseed} gives {la[:4]}..., a fresh object in the "
+                        f"same configuration gives {fb[:4]}...: the result depends on the object's history"]
+            # model replay, draw by draw
+            tape = py_tape(iseed, K_SINGLE * 40)
+            pos, ms = 0, []
+            for _ in range(K_SINGLE):
+                m = ctx.model.call({"op": "samp", "what": "one", "dist": dist, "u": tape[pos]})
+                pos += 1
+                if sampler:
+                    md = ctx.model.call({"op": "samp", "what": "det", "det": det_json(det), "state": m,
+                                         "tape": tape[pos:pos + 30]})
+                    pos += md["used"]
+                    m = md["state"]
+                ms.append(m)
+            if ms != la:
+                return [f"corr: {where}: {meth} under seed {iseed} gives {la}, tape replay on the model gives {ms}"]
+            continue
+        ca, cb = counts_of(a[1]), counts_of(b[1])
+        bad = clause_problem(ca, meth, im, rules, mind, pnr)
+        if bad:
+            return [bad + f" — {where}"]
+        tot = sum(ca.values())
+        if what == "n_outputs" and tot != N:
+            return [f"oracle: {where}: {meth} returned {tot} samples instead of exactly {N}"]
+        if tot > N:
+            return [f"oracle: {where}: {meth} returned more samples than inputs"]
+        if ca != cb:
+            return [f"oracle: {where}: {meth}(N={N}, seed={seed!r}) gives {sorted(ca.items())[:5]}, a fresh object in the same "
+                    f"configuration gives {sorted(cb.items())[:5]}: the result depends on the object's history"]
+        us = [fr(u) for u in np.random.default_rng(iseed).random(N)]
+        if what == "n_inputs":
+            ntape = N * (max(sum(k.s) for k in pd) + cref.n_modes + 2)
+            mres = ctx.model.call({"op": "samp", "what": "n_inputs", "dist": dist, "det": det_json(det),
+                                   "outher": outher, "rules": rules, "min": mind, "us": us,
+                                   "tape": py_tape(tape_seed(step["seed"]), ntape)})
+        elif sampler:
+            cond = ctx.model.call({"op": "samp", "what": "outputs_dist", "dist": dist, "pnr": pnr, "outher": outher,
+                                   "rules": rules, "min": mind})
+            mres = ctx.model.call({"op": "samp", "what": "n_outputs", "cond": cond, "us": us})
+        else:
+            mres = ctx.model.call({"op": "samp", "what": "n_outputs", "cond": dist, "us": us})
+        if tally(mres) != ca:
+            return [f"corr: {where}: {meth}(N={N}, seed={seed!r}) counts differ from the tape replay on the model "
+                    f"(distribution of a fresh object): impl={sorted(ca.items())[:5]} model={sorted(tally(mres).items())[:5]}"]
+    return []
+
+
+def run_history(ctx: Ctx, hist: dict, cnt=None):
+    """-> (problems, Live at the point where the history stopped)"""
+    cnt = cnt or (lambda *_: None)
+    try:
+        live = Live(hist)
+    except Exception:  # noqa: BLE001  (not constructible, e.g. after shrinking)
+        return [], None
+    for i, step in enumerate(hist["steps"]):
+        for op in step.get("set", []):
+            try:
+                ok = live.apply(op)
+            except Exception as e:  # noqa: BLE001
+                return [f"oracle: history step {i}: reconfiguration {op[0]} raised {exc_class(e)}: {str(e)[:80]}"], live
+            cnt(f"history:set:{op[0]}" + ("" if ok else ":skipped"))
+        for r in step.get("reads", []):
+            live.read(r)
+            cnt(f"history:read:{r}")
+        probs = observe(ctx, live, step, i, cnt)
+        if probs:
+            return probs, live
+    return [], live
+
+
+# ---- generation
+
+
+def gen_base(rng, n: int, kind: str | None = None) -> list:
+    kind = kind or rng.choice(["unitary", "unitary", "unitary", "perm", "bs", "bs", "lossy"])
+    if kind == "perm":
+        return [["new", "c1", n], ["swaps", "c1", cg.rand_perm_pairs(rng, list(range(n)))]]
+    if kind == "bs":
+        prog = [["new", "c1", n]]
+        for _ in range(rng.randint(n - 1, 2 * n)):
+            m1, m2 = rng.sample(range(n), 2)
+            c, s = rng.choice(PYTH)
+            prog.append(cg.op_bs("c1", m1, m2, c, s, rng.choice(["Rx", "H"])))
+        return prog
+    prog = [["unitary", "c1", cg.mat_json(cg.exact_unitary(rng, n, depth=rng.randint(n, 2 * n)))]]
+    if kind == "lossy":
+        a, b = rng.choice([p for p in PYTH if 0 < p[1] < 1])
+        prog.append(cg.op_loss("c1", rng.randrange(n), a, b))
+    return prog
+
+
+def gen_heralds(rng, n: int, kmax: int = 2) -> list:
+    k = min(rng.choice([0, 1, 1, 2]), kmax, n - 2)
+    ins = rng.sample(range(n), k)
+    outs = list(ins) if rng.random() < 0.3 else rng.sample(range(n), k)
+    hs, tot = [], 0
+    for i, o in zip(ins, outs):
+        p = rng.choice([0, 0, 1, 1, 2])
+        if tot + p > 2:
+            p = 0
+        tot += p
+        hs.append([p, i, o])
+    return hs
+
+
+def mutate_heralds(rng, n: int, hs: list) -> list:
+    """the neighbouring herald configurations: other output mode, other input mode, other photon number,
+    one herald more / fewer, a different set altogether"""
+    hs = json.loads(json.dumps(hs))
+    how = rng.choice(["out", "out", "in", "photons", "more", "fewer", "new"])
+    if not hs and how in ("out", "in", "photons", "fewer"):
+        how = "more"
+    if how == "out":
+        h = rng.choice(hs)
+        free = [m for m in range(n) if m not in [x[2] for x in hs]]
+        if free:
+            h[2] = rng.choice(free)
+    elif how == "in":
+        h = rng.choice(hs)
+        free = [m for m in range(n) if m not in [x[1] for x in hs]]
+        if free:
+            h[1] = rng.choice(free)
+    elif how == "photons":
+        h = rng.choice(hs)
+        h[0] = rng.choice([p for p in (0, 1, 2) if p != h[0]])
+    elif how == "more" and len(hs) < n - 2:
+        fi = [m for m in range(n) if m not in [x[1] for x in hs]]
+        fo = [m for m in range(n) if m not in [x[2] for x in hs]]
+        hs.append([rng.choice([0, 0, 1]), rng.choice(fi), rng.choice(fo)])
+    elif how == "fewer":
+        hs.pop(rng.randrange(len(hs)))
+    else:
+        hs = gen_heralds(rng, n)
+    while sum(h[0] for h in hs) > 2:
+        max(hs, key=lambda h: h[0])[0] -= 1
+    return hs
+
+
+DETS = [{"eta": 1, "pdark": 0, "pnr": True}, {"eta": 1, "pdark": 0, "pnr": True}, {"eta": 1, "pdark": 0, "pnr": False},
+        {"eta": 0.5, "pdark": 0, "pnr": True}, {"eta": 0.9, "pdark": 0, "pnr": True}, {"eta": 0.75, "pdark": 0, "pnr": False},
+        {"eta": 1, "pdark": 0.25, "pnr": True}, {"eta": 0.9, "pdark": 0.05, "pnr": False}]
+PARAMS = [0.25, 0.5, 0.75, 1.0, 0.0]
+
+
+def gen_rules_h(rng, modes: int, nph: int) -> list:
+    """post-selection rules that usually leave something: count sets of two or three values"""
+    rules, used = [], set()
+    for _ in range(rng.choice([0, 1, 1, 2])):
+        free = [m for m in range(modes) if m not in used]
+        if not free:
+            break
+        ms = rng.sample(free, rng.randint(1, min(2, len(free))))
+        used.update(ms)
+        cnt = sorted(set(rng.sample(range(nph + 1), min(nph + 1, rng.randint(2, 3)))))
+        rules.append([ms, cnt])
+    return rules
+SRCS = [None, None, [0.8, 1, 1], [1, 0.9, 1], [1, 1, 0.7], [0.9, 0.95, 0.8]]
+
+
+def gen_history(ctx: Ctx, rng, kind: str) -> dict:
+    n = rng.choice([3, 4, 4, 5])
+    bases = [gen_base(rng, n), gen_base(rng, n)]
+    if rng.random() < 0.5:
+        bases[1] = gen_base(rng, n, "unitary")
+    hs = gen_heralds(rng, n)
+    im = n - len(hs)
+    nph = max(1, min(rng.choice([1, 2, 2, 3]), 4 - sum(h[0] for h in hs)))
+    init = {"circ": {"base": 0, "heralds": hs, "param": rng.choice([None, None, *PARAMS[:3]])},
+            "input": fg.rand_state(rng, im, nph),
+            "rules": gen_rules_h(rng, im, nph), "psform": rng.choice(["object", "object_always", "function"])}
+    if kind == "sampler":
+        init.update({"det": dict(rng.choice(DETS)), "src": None, "backend": "permanent", "min": rng.choice([0, 0, 1])})
+    else:
+        init["pnr"] = rng.random() < 0.7
+    sim = json.loads(json.dumps(init))  # the generator's own view of the configuration
+
+    def step_ops() -> list:
+        ops = []
+        menu = (["circuit"] * 6 + ["herald_inplace"] * 2 + ["input"] * 3 + ["rules"] * 4 + ["param"] * 3 + ["ps_add"] * 4 +
+                (["min", "min", "detector", "detector", "detector_attr", "detector_attr", "source",
+                  "source_attr", "backend"] if kind == "sampler" else ["pnr"] * 4))
+        for a in rng.sample(menu, rng.choice([1, 1, 2])):
+            cim = n - len(sim["circ"]["heralds"])
+            cnph = max(1, min(sum(sim["input"]) or 1, 3))
+            if a == "circuit":
+                how = rng.choice(["heralds", "heralds", "base", "both"])
+                circ = {"base": sim["circ"]["base"], "heralds": sim["circ"]["heralds"], "param": sim["circ"]["param"]}
+                if rng.random() < 0.3:
+                    circ["param"] = rng.choice([None, *PARAMS])
+                if how in ("heralds", "both"):
+                    circ["heralds"] = mutate_heralds(rng, n, circ["heralds"])
+                if how in ("base", "both"):
+                    circ["base"] = 1 - circ["base"]
+                sim["circ"] = json.loads(json.dumps(circ))
+                sim["input"] = fit_input(sim["input"], n - len(circ["heralds"]))
+                ops.append(["circuit", circ])
+            elif a == "herald_inplace":
+                hcur = sim["circ"]["heralds"]
+                fi = [m for m in range(n) if m not in [x[1] for x in hcur]]
+                fo = [m for m in range(n) if m not in [x[2] for x in hcur]]
+                if cim < 2 or not fi or not fo:
+                    continue
+                h = [rng.choice([0, 0, 1]) if sum(x[0] for x in hcur) < 2 else 0, rng.choice(fi), rng.choice(fo)]
+                hcur.append(h)
+                sim["input"] = fit_input(sim["input"], cim - 1)
+                ops.append(["herald_inplace", h])
+            elif a == "param":
+                if sim["circ"]["param"] is None:
+                    continue
+                sim["circ"]["param"] = rng.choice([r for r in PARAMS if r != sim["circ"]["param"]])
+                ops.append(["param", sim["circ"]["param"]])
+            elif a == "input":
+                sim["input"] = fg.rand_state(rng, cim, rng.choice([1, 2, 2, 3]))
+                ops.append(["input", sim["input"]])
+            elif a == "rules":
+                sim["rules"] = gen_rules_h(rng, cim, cnph) or [[[rng.randrange(cim)], sorted({0, rng.randint(0, cnph)})]]
+                if rng.random() < 0.15:
+                    sim["rules"] = []
+                sim["psform"] = rng.choice(["object", "object_always", "function"])
+                ops.append(["rules", sim["rules"], sim["psform"]])
+            elif a == "ps_add":
+                used = {m for r in sim["rules"] for m in r[0]}
+                free = [m for m in range(cim) if m not in used]
+                if not free or sim["psform"] == "function" or (sim["psform"] == "object" and not sim["rules"]):
+                    continue
+                r = [[rng.choice(free)], sorted(set(rng.sample(range(cnph + 1), rng.randint(1, 2))))]
+                sim["rules"].append(r)
+                ops.append(["ps_add", r])
+            elif a == "min":
+                ops.append(["min", rng.choice([0, 0, 1, 1, 2, cnph])])
+            elif a == "detector":
+                ops.append(["detector", dict(rng.choice(DETS))])
+            elif a == "detector_attr":
+                key = rng.choice(["eta", "pdark", "pnr"])
+                ops.append(["detector_attr", key, {"eta": rng.choice([1, 0.5, 0.9]), "pdark": rng.choice([0, 0, 0.25]),
+                                                   "pnr": rng.random() < 0.5}[key]])
+            elif a == "source":
+                ops.append(["source", rng.choice(SRCS)])
+            elif a == "source_attr":
+                i = rng.randrange(3)
+                ops.append(["source_attr", i, rng.choice([1, 0.8, 0.9])])
+            elif a == "backend":
+                ops.append(["backend", rng.choice(["permanent", "slos"])])
+            elif a == "pnr":
+                ops.append(["pnr", rng.random() < 0.5])
+        return ops
+
+    steps = []
+    for i in range(rng.randint(3, 5)):
+        obs = list(OBS[kind])
+        rng.shuffle(obs)
+        if rng.random() < 0.25:
+            obs.pop()
+        reads = rng.sample(READS[kind], rng.choice([0, 1, 1, 2]))
+        steps.append({"set": step_ops() if i else [], "reads": reads if i else [], "obs": obs,
+                      "seed": rng.choice(SEED_POOL) if rng.random() < 0.3 else rng.randrange(10**6),
+                      "N": rng.choice([0, 1, 40, 40, 40, 120, 120, 120])})
+    return {"kind": kind, "bases": bases, "init": init, "steps": steps}
+
+
+def corpus_histories() -> list[dict]:
+    """directed histories for the nastiest shapes (fixed, independent of VERIF_SEED)"""
+    rng = pyrandom.Random("c07-history-corpus")
+    u4a, u4b = gen_base(rng, 4, "unitary"), gen_base(rng, 4, "unitary")
+    perm4 = [["new", "c1", 4], ["swaps", "c1", [[0, 1], [1, 2], [2, 3], [3, 0]]]]
+    det0 = {"eta": 1, "pdark": 0, "pnr": True}
+
+    def s_init(base, hs, inp, **kw):
+        d = {"circ": {"base": base, "heralds": hs, "param": None}, "input": inp, "rules": [], "psform": "object",
+             "det": dict(det0), "src": None, "backend": "permanent", "min": 0}
+        d.update(kw)
+        return d
+
+    def q_init(base, hs, inp, **kw):
+        d = {"circ": {"base": base, "heralds": hs, "param": None}, "input": inp, "rules": [], "psform": "object", "pnr": True}
+        d.update(kw)
+        return d
+
+    def st(sets, reads, obs, seed=11, N=60):
+        return {"set": sets, "reads": reads, "obs": obs, "seed": seed, "N": N}
+
+    all_s, all_q = ["n_inputs", "n_outputs", "sample"], ["sample", "n_outputs"]
+    hs: list[dict] = []
+    # the herald moves to another output (and input) mode of a circuit of the same size; photon-carrying heralds
+    hs.append({"kind": "sampler", "bases": [u4a, u4b], "init": s_init(0, [[0, 0, 0]], [1, 1, 0]), "steps": [
+        st([], [], all_s),
+        st([["circuit", {"base": 0, "heralds": [[0, 3, 3]]}]], [], ["n_outputs", "n_inputs", "sample"], seed=["int", 0]),
+        st([["circuit", {"base": 0, "heralds": [[1, 0, 2]]}]], ["pd"], all_s),
+        st([["circuit", {"base": 1, "heralds": [[1, 2, 0]]}]], ["cd"], all_s),
+        st([["circuit", {"base": 0, "heralds": []}], ["input", [1, 0, 1, 0]]], [], all_s),
+        st([["circuit", {"base": 0, "heralds": [[0, 1, 1], [0, 2, 2]]}], ["input", [1, 1]]], ["n_inputs"], all_s),
+        st([["circuit", {"base": 0, "heralds": [[2, 1, 1]]}]], [], all_s)]})
+    # a further herald is declared on the circuit object the sampler already holds
+    hs.append({"kind": "sampler", "bases": [u4a, u4b], "init": s_init(0, [[0, 0, 0]], [1, 1, 0]), "steps": [
+        st([], [], ["n_inputs"]),
+        st([["herald_inplace", [0, 3, 3]]], [], ["n_outputs", "n_inputs"]),
+        st([["circuit", {"base": 1, "heralds": [[0, 1, 1]]}], ["input", [1, 0, 1]]], ["n_outputs"], all_s),
+        st([["herald_inplace", [1, 0, 2]]], ["pd"], all_s)]})
+    # deterministic circuit (mode permutation): every sample is one known state
+    hs.append({"kind": "sampler", "bases": [perm4, u4a], "init": s_init(0, [[1, 3, 0]], [1, 0, 0], min=1), "steps": [
+        st([], [], all_s),
+        st([["circuit", {"base": 0, "heralds": [[1, 0, 1]]}], ["input", [0, 1, 1]]], ["sample"], all_s),
+        st([["detector_attr", "pnr", False], ["input", [0, 2, 1]]], [], all_s),
+        st([["circuit", {"base": 0, "heralds": [[0, 2, 3]]}], ["min", 2]], ["n_outputs"], all_s),
+        st([["detector_attr", "eta", 0.5], ["min", 1]], [], all_s, seed=["int", 0])]})
+    # detector / source / backend / post-selection changed between calls
+    hs.append({"kind": "sampler", "bases": [u4a, u4b],
+               "init": s_init(0, [[1, 0, 3]], [1, 0, 1], rules=[[[0], [0, 1]]], det={"eta": 0.5, "pdark": 0, "pnr": True}),
+               "steps": [
+        st([], [], all_s),
+        st([["detector", {"eta": 1, "pdark": 0.25, "pnr": True}]], ["sample"], all_s, seed=["float", 0.0]),
+        st([["ps_add", [[1], [0]]], ["detector_attr", "pdark", 0]], [], all_s),
+        st([["source", [0.8, 1, 1]], ["rules", [[[2], [1]]], "function"]], ["pd"], all_s),
+        st([["backend", "slos"], ["source_attr", 0, 1]], ["n_outputs"], all_s),
+        st([["detector_attr", "pnr", False], ["circuit", {"base": 1, "heralds": [[1, 1, 0]]}]], ["cd"], all_s)]})
+    # quick sampler: the setting changes, then another method is called, then sample()
+    hs.append({"kind": "quick", "bases": [u4a, u4b], "init": q_init(0, [], [1, 0, 1, 0], rules=[[[0], [1]]], psform="function"),
+               "steps": [
+        st([], [], all_q),
+        st([["rules", [[[0], [0]]], "function"]], ["n_outputs"], all_q),
+        st([["pnr", False]], ["pd"], all_q),
+        st([["rules", [[[0], [0, 1]]], "object"]], ["cd"], all_q),
+        st([["ps_add", [[1], [0]]]], ["n_outputs"], all_q),
+        st([["ps_add", [[3], [0, 1]]]], ["companion"], ["n_outputs", "sample"]),
+        st([["input", [0, 1, 1, 0]]], ["n_outputs"], ["sample", "n_outputs"]),
+        st([["circuit", {"base": 1, "heralds": []}]], ["pd"], all_q),
+        st([["circuit", {"base": 1, "heralds": [[0, 2, 2]]}], ["rules", [[[1], [0, 1]]], "object"]], ["n_outputs"], all_q),
+        st([["pnr", True], ["circuit", {"base": 1, "heralds": [[1, 2, 0]]}]], ["pd"], all_q),
+        st([["herald_inplace", [0, 3, 3]]], ["n_outputs"], all_q)]})
+    # quick sampler on a deterministic circuit with a photon-carrying herald
+    hs.append({"kind": "quick", "bases": [perm4, u4a], "init": q_init(0, [[1, 3, 0]], [1, 0, 0]), "steps": [
+        st([], [], all_q),
+        st([["input", [0, 1, 0]]], ["n_outputs"], all_q),
+        st([["circuit", {"base": 0, "heralds": [[1, 0, 1]]}], ["input", [0, 0, 1]]], ["pd"], all_q),
+        st([["input", [1, 1, 0]]], ["n_outputs"], all_q)]})
+    return hs
+
+
+def shrink_history(ctx: Ctx, hist: dict, cls: str) -> dict:
+    def fails_h(h):
+        ps, _ = run_history(ctx, h)
+        return bool(ps) and ps[0].startswith(cls)
+
+    steps = ddmin(hist["steps"], lambda ss: fails_h(dict(hist, steps=ss)), max_tests=40)
+    cur = dict(hist, steps=json.loads(json.dumps(steps)))
+    # then the lists inside every step
+    for i in range(len(cur["steps"])):
+        for key in ("reads", "set", "obs"):
+            j = 0
+            while j < len(cur["steps"][i].get(key, [])):
+                cand = json.loads(json.dumps(cur))
+                cand["steps"][i][key].pop(j)
+                if (key != "obs" or cand["steps"][i][key]) and fails_h(cand):
+                    cur = cand
+                else:
+                    j += 1
+    return cur
+
+
+def check_history(ctx: Ctx, hist: dict, tag: str):
+    probs, live = run_history(ctx, hist, ctx.count)
+    ctx.case(("history", json.dumps(hist)), True, sample=hist if tag == "corpus" and len(ctx.samples) < 1 else None)
+    ctx.count(f"history:{tag}:{hist['kind']}")
+    if probs:
+        p = probs[0]
+        cls = "oracle" if p.startswith("oracle") else "corr"
+        small = shrink_history(ctx, hist, cls)
+        sp, _ = run_history(ctx, small)
+        if not sp or not sp[0].startswith(cls):
+            small, sp = hist, probs
+        if cls == "oracle":
+            ctx.violation(sp[0], {"history": small, "problems": sp, "steps_before_shrinking": len(hist["steps"])},
+                          sig={"kind": "history", "object": hist["kind"]})
+        else:
+            ctx.disagreement(sp[0], {"history": small, "problems": sp})
+    return probs, live
+
+
+def history_probe(ctx: Ctx, rng) -> None:
+    for h in corpus_histories():
+        if ctx.out_of_time():
+            return
+        check_history(ctx, h, "corpus")
+    for i in range(ctx.n(40, 600)):
+        if ctx.out_of_time():
+            return
+        check_history(ctx, gen_history(ctx, rng, "sampler" if i % 2 == 0 else "quick"), "generated")
+
+
+def quick_ps_mutation_probe(ctx: Ctx, rng) -> None:
+    """post-selection as configured at call time, QuickSampler: the PostSelection object the quick sampler holds
+    gets a further rule (in place) after the first use; every state returned afterwards must satisfy it"""
+    for _ in range(ctx.n(4, 40)):
+        if ctx.out_of_time() or ctx.extra.get("_qps_reported"):
+            break
+        case = None
+        while case is None:
+            case = gen_case(ctx, rng)
+        c = fg.build_impl(case["prog"])["c1"]
+        im, nph = c.input_modes, sum(case["input"])
+        if im < 2 or nph == 0:
+            continue
+        ps = lw.PostSelection()
+        m0 = rng.randrange(im)
+        ps.add(m0, tuple(range(nph + 1)))
+        try:
+            qs = emulator.QuickSampler(c, lw.State(case["input"]), post_select=ps)
+            qs.sample_N_outputs(50, seed=1)
+            qs.sample()
+        except Exception:  # noqa: BLE001
+            continue
+        m1 = rng.choice([m for m in range(im) if m != m0])
+        k = rng.choice([0, 1])
+        ps.add(m1, k)
+        rules = [[[m0], list(range(nph + 1))], [[m1], [k]]]
+        ctx.case(("quick-ps-mutation", json.dumps(case), m1, k), True)
+        ctx.count("quick:postselection_object_mutated_in_place")
+        got: dict = {}
+        try:
+            got["sample_N_outputs"] = [s.s for s in qs.sample_N_outputs(100, seed=2)]
+            got["sample"] = [qs.sample().s for _ in range(20)]
+        except Exception:  # noqa: BLE001  (no output left under the tightened rule: an error is fine)
+            pass
+        for name, states in got.items():
+            bad = [s for s in states if not rule_ok(rules, s)]
+            if bad:
+                ctx.extra["_qps_reported"] = True
+                ctx.violation(f"oracle: QuickSampler.{name} returned {bad[0]}, which fails the post-selection its "
+                              f"PostSelection object has at call time (rule on mode {m1} added in place after the first "
+                              f"use; qs.post_select.validate(state) is {qs.post_select.validate(lw.State(bad[0]))})",
+                              {"case": {k_: case[k_] for k_ in ("prog", "input")}, "rules": rules, "method": name},
+                              sig=dict(QPS_SIG))
+                break
 
 
 def reuse_probe(ctx: Ctx, rng) -> None:
@@ -195,14 +1148,14 @@ def reuse_probe(ctx: Ctx, rng) -> None:
         im = c.input_modes
         if im < 2 or sum(case["input"]) == 0:
             continue
-        hout = c.heralds["output"]
+        seed = seed_parts(case["seed"])[1] % 10**6
         smp = emulator.Sampler(c, lw.State(case["input"]))
         ps = lw.PostSelection()
         m0 = rng.randrange(im)
         ps.add(m0, tuple(range(0, sum(case["input"]) + 1)))  # permissive first rule
         try:
-            smp.sample_N_inputs(300, post_select=ps, seed=case["seed"])
-            smp.sample_N_outputs(300, post_select=ps, seed=case["seed"])
+            smp.sample_N_inputs(300, post_select=ps, seed=seed)
+            smp.sample_N_outputs(300, post_select=ps, seed=seed)
         except Exception:  # noqa: BLE001
             continue
         m1 = rng.choice([m for m in range(im) if m != m0])
@@ -213,7 +1166,7 @@ def reuse_probe(ctx: Ctx, rng) -> None:
         ctx.count("postselection_object_reused")
         for name in ("sample_N_inputs", "sample_N_outputs"):
             try:
-                res = getattr(smp, name)(300, post_select=ps, seed=case["seed"] + 1)
+                res = getattr(smp, name)(300, post_select=ps, seed=seed + 1)
             except Exception:  # noqa: BLE001  (no accepted output left: SamplerError is fine)
                 continue
             for st in res:
@@ -224,10 +1177,51 @@ def reuse_probe(ctx: Ctx, rng) -> None:
                     return
 
 
-def stat_test(ctx: Ctx, rng) -> None:
-    """frequencies of sample_N_inputs vs the exact detected/heralded/post-selected distribution"""
+# --------------------------------------------------------------------------- statistics
+
+
+def exact_inputs_dist(ctx: Ctx, pd, det, hout, rules, mind) -> dict:
+    """exact distribution of what sample_N_inputs returns per input (model kernel on every output state,
+    then heralding, herald removal, post-selection, min_detection); the rest is the rejected fraction"""
+    exp: dict = {}
+    for k, p in pd.items():
+        ker = ctx.model.call({"op": "samp", "what": "kernel", "det": det_json(det), "state": k.s})
+        for t, q in ker:
+            if any(t[m] != n for m, n in hout.items()):
+                continue
+            u = tuple(x for i, x in enumerate(t) if i not in hout)
+            if rule_ok(rules, list(u)) and sum(u) >= mind:
+                exp[u] = exp.get(u, 0.0) + float(p) * float(Fraction(q))
+    return exp
+
+
+def chi2_verdict(obs: dict, exp: dict, N: int, reject_bucket: bool):
+    """-> None (nothing to test) | ('support', state) | ('ok'|'deviates', stat, dof, pval)"""
     from scipy.stats import chi2
 
+    for k in obs:
+        if k not in exp or exp[k] <= 0:
+            return ("support", k)
+    acc = sum(exp.values())
+    nobs = sum(obs.values())
+    cells = [(obs.get(k, 0), N * v) for k, v in exp.items()]
+    if reject_bucket:
+        cells.append((N - nobs, N * (1 - acc)))
+    cells = [(o, e) for o, e in cells if e > 1e-9]
+    big = [(o, e) for o, e in cells if e >= 5]
+    small_o = sum(o for o, e in cells if e < 5)
+    small_e = sum(e for o, e in cells if e < 5)
+    if small_e > 0:
+        big.append((small_o, small_e))
+    if len(big) < 2:
+        return None
+    stat = sum((o - e) ** 2 / e for o, e in big)
+    pval = float(chi2.sf(stat, len(big) - 1))
+    return ("deviates" if pval < 1e-9 else "ok", stat, len(big) - 1, pval)
+
+
+def stat_test(ctx: Ctx, rng) -> None:
+    """frequencies of sample_N_inputs vs the exact detected/heralded/post-selected distribution"""
     for _ in range(ctx.n(3, 25)):
         if ctx.out_of_time():
             break
@@ -245,53 +1239,95 @@ def stat_test(ctx: Ctx, rng) -> None:
                                                           photon_counting=det["pnr"]))
         pd = smp.probability_distribution
         N = 6000
-        res = smp.sample_N_inputs(N, post_select=make_ps(rules), min_detection=mind, seed=case["seed"])
-        obs = {tuple(s.s): n for s, n in res.items()}
-        # exact expectation from the model kernel
-        exp: dict = {}
-        for k, p in pd.items():
-            ker = ctx.model.call({"op": "samp", "what": "kernel", "det": det_json(det), "state": k.s})
-            for t, q in ker:
-                if any(t[m] != n for m, n in hout.items()):
-                    continue
-                u = tuple(x for i, x in enumerate(t) if i not in hout)
-                if rule_ok(rules, list(u)) and sum(u) >= mind:
-                    exp[u] = exp.get(u, 0.0) + float(p) * float(Fraction(q))
+        res = smp.sample_N_inputs(N, post_select=make_ps(rules), min_detection=mind, seed=seed_parts(case["seed"])[1])
+        obs = counts_of(res)
+        exp = exact_inputs_dist(ctx, pd, det, hout, rules, mind)
         acc = sum(exp.values())
         nobs = sum(obs.values())
         ctx.case(("stat", json.dumps(case)), True)
         ctx.count("stat_tests")
-        # cells: every accepted outcome + the rejected bucket
-        cells = [(obs.get(k, 0), N * v) for k, v in exp.items()] + [(N - nobs, N * (1 - acc))]
-        if any(k not in exp or exp[k] <= 0 for k in obs):
+        v = chi2_verdict(obs, exp, N, True)
+        if v is None:
+            continue
+        if v[0] == "support":
             ctx.violation("oracle: sample_N_inputs returned a state that has probability zero under the exact "
                           "detected/heralded/post-selected distribution", {"case": case}, sig={"kind": "stat-support"})
-            continue
-        cells = [(o, e) for o, e in cells if e > 1e-9]
-        big = [(o, e) for o, e in cells if e >= 5]
-        small_o = sum(o for o, e in cells if e < 5)
-        small_e = sum(e for o, e in cells if e < 5)
-        if small_e > 0:
-            big.append((small_o, small_e))
-        if len(big) < 2:
-            continue
-        stat = sum((o - e) ** 2 / e for o, e in big)
-        pval = float(chi2.sf(stat, len(big) - 1))
-        if pval < 1e-9:
+        elif v[0] == "deviates":
             ctx.violation(f"oracle: empirical frequencies of sample_N_inputs deviate from the exact distribution "
-                          f"(chi2={stat:.1f}, dof={len(big) - 1}, p={pval:.2e}; accepted fraction {nobs / N:.4f} vs {acc:.4f})",
-                          {"case": case, "observed": sorted(obs.items()), "expected": sorted((k, N * v) for k, v in exp.items())},
+                          f"(chi2={v[1]:.1f}, dof={v[2]}, p={v[3]:.2e}; accepted fraction {nobs / N:.4f} vs {acc:.4f})",
+                          {"case": case, "observed": sorted(obs.items()), "expected": sorted((k, N * v_) for k, v_ in exp.items())},
                           sig={"kind": "stat-frequencies"})
+
+
+def stat_history(ctx: Ctx, rng) -> None:
+    """frequencies returned by a long-lived object at the END of a history vs the exact distribution of its
+    current configuration (distribution of a fresh object; detector kernel from the model)"""
+    for i in range(ctx.n(4, 30)):
+        if ctx.out_of_time():
+            break
+        kind = "sampler" if i % 2 == 0 else "quick"
+        hist = gen_history(ctx, rng, kind)
+        probs, live = run_history(ctx, hist)
+        if probs or live is None:
+            continue  # reported by history_probe's own stream when it meets it; here only clean histories
+        cur = live.cur
+        cref, psf, fresh = live.fresh()
+        try:
+            pd = fresh.probability_distribution
+        except Exception:  # noqa: BLE001
+            continue
+        hout, rules = cref.heralds["output"], cur["rules"]
+        ctx.case(("stat-history", json.dumps(hist)), True)
+        ctx.count(f"stat_tests:history:{kind}")
+        tests = []
+        if kind == "sampler":
+            if hout and max(hout.values()) > 1 and not cur["det"]["pnr"]:
+                continue
+            N = 6000
+            obs = counts_of(live.obj.sample_N_inputs(N, post_select=live.ps, min_detection=cur["min"], seed=rng.randrange(10**6)))
+            exp = exact_inputs_dist(ctx, pd, cur["det"], hout, rules, cur["min"])
+            tests.append(("Sampler.sample_N_inputs", obs, exp, N, True))
+            if not hout:
+                K = 2000
+                pyrandom.seed(rng.randrange(10**6))
+                obs1 = tally(live.obj.sample().s for _ in range(K))
+                exp1 = exact_inputs_dist(ctx, pd, cur["det"], {}, [], 0)
+                tests.append(("Sampler.sample", obs1, exp1, K, True))
+        else:
+            K = 3000
+            pyrandom.seed(rng.randrange(10**6))
+            obs = tally(live.obj.sample().s for _ in range(K))
+            tot = float(sum(pd.values()))
+            exp = {tuple(k.s): float(v) / tot for k, v in pd.items()}
+            tests.append(("QuickSampler.sample", obs, exp, K, False))
+            obs2 = counts_of(live.obj.sample_N_outputs(K, seed=rng.randrange(10**6)))
+            tests.append(("QuickSampler.sample_N_outputs", obs2, exp, K, False))
+        for meth, obs, exp, N, rej in tests:
+            v = chi2_verdict(obs, exp, N, rej)
+            if v is None or v[0] == "ok":
+                continue
+            what = (f"returned {list(v[1])}, a state of probability zero under" if v[0] == "support" else
+                    f"frequencies deviate (chi2={v[1]:.1f}, dof={v[2]}, p={v[3]:.2e}) from")
+            ctx.violation(f"oracle: {meth} on a long-lived object at the end of a history: {what} the exact distribution of "
+                          f"the current configuration", {"history": hist, "method": meth, "observed": sorted(obs.items()),
+                                                         "expected": sorted((k, N * x) for k, x in exp.items())},
+                          sig={"kind": "stat-history", "method": meth})
+            break
 
 
 def run(ctx: Ctx) -> None:
     ctx.rule = ("generated circuits/inputs, detector settings (efficiency, p_dark, photon counting), post-selection "
-                "rules, min_detection, seeds and sample counts; tape replay of sample_N_inputs / sample_N_outputs / "
-                "sample on the model + clause checks + chi-square tests; non-trivial = imperfect detector or heralds or "
-                "rules or min_detection; distinct = distinct configuration")
+                "rules (objects and functions), min_detection, seeds (random and the boundary pool) and sample counts; "
+                "tape replay of sample_N_inputs / sample_N_outputs / sample of the Sampler and the QuickSampler on the "
+                "model + clause checks + chi-square tests; histories on one long-lived Sampler / QuickSampler "
+                "(sample, reconfigure, read, sample) against the current configuration's clauses, a fresh object and the "
+                "model; non-trivial = imperfect detector or heralds or rules or min_detection or a history; distinct = "
+                "distinct configuration / history")
     contract_selftest(ctx)
-    N = ctx.n(90, 2000)
     rng = ctx.rng
+    seed_corpus(ctx, rng)
+    history_probe(ctx, rng)
+    N = ctx.n(70, 2000)
     done = 0
     while done < N:
         case = gen_case(ctx, rng)
@@ -304,23 +1340,29 @@ def run(ctx: Ctx) -> None:
             any(op[0] == "herald" for op in case["prog"])
         ctx.count("imperfect_detector" if (d["eta"] != 1 or d["pdark"] != 0 or not d["pnr"]) else "perfect_detector")
         ctx.count("heralded" if any(op[0] == "herald" for op in case["prog"]) else "no_heralds")
+        ctx.count(f"seed:{seed_tag(case['seed'])}")
         ctx.case(json.dumps(case), nontriv, sample=case if done <= 2 else None)
-        for p in probs[:1]:
-            if p.startswith("oracle"):
-                sig = {"kind": p[8:40]}
-                if "Sampler.sample returned" in p:
-                    sig = {"method": "Sampler.sample", "circuit_has_heralds": True}
-                ctx.violation(p, {"case": case, "problems": probs}, sig=sig)
-            else:
-                ctx.disagreement(p, {"case": case, "problems": probs})
+        report_case(ctx, case, probs)
     reuse_probe(ctx, rng)
+    quick_ps_mutation_probe(ctx, rng)
     stat_test(ctx, rng)
+    stat_history(ctx, rng)
+    for k in [k for k in ctx.extra if k.startswith("_")]:
+        del ctx.extra[k]
 
 
 def replay(ctx: Ctx, path: str) -> None:
     data = json.load(open(path))["replay"]
-    probs = run_case(ctx, data["case"])
-    ctx.case("replay", True, sample=data["case"])
+    if "history" in data:
+        probs, _ = run_history(ctx, data["history"])
+        ctx.case("replay", True, sample=data["history"])
+    elif "prog" in data.get("case", {}) and "det" in data["case"]:
+        probs = run_case(ctx, data["case"])
+        ctx.case("replay", True, sample=data["case"])
+    else:
+        print("replay: this replay records a directed probe (reuse / in-place mutation / statistics); rerun the check "
+              "with the recorded seed")
+        return
     for p in probs:
         print("replay:", p)
         (ctx.violation(p, data, sig={"kind": "replay"}) if p.startswith("oracle") else ctx.disagreement(p, data))
